@@ -147,6 +147,7 @@ type Exec struct {
 	Sites    map[int32]bool // access sites that are scheduling points in this execution
 	TraceLog []string
 	hb       map[string][]uint32 // harness HB keys
+	det      bool                // deterministic tail: no further choice points are recorded
 	fp       uint64              // running fingerprint of the Mazurkiewicz trace (xor of event hashes)
 	divergence string
 }
@@ -406,7 +407,7 @@ func (e *Exec) schedule(from *thread) {
 		e.abort(from, v)
 	}
 	idx := 0
-	if len(en) > 1 {
+	if len(en) > 1 && !e.det {
 		rh := uint64(1)
 		if costly {
 			rh = from.phash
@@ -753,7 +754,7 @@ func HBAcquire(key string) {
 // Choose is an environment choice point with n alternatives (default 0).
 func Choose(n int) int {
 	e := cur
-	if e == nil || n <= 1 || e.running.aborted {
+	if e == nil || n <= 1 || e.running.aborted || e.det {
 		return 0
 	}
 	c := e.choose(n, true, true, mix(e.running.phash, 77))
@@ -845,5 +846,31 @@ func GCControl(off bool) {
 		debug.SetGCPercent(-1)
 	} else {
 		debug.SetGCPercent(100)
+	}
+}
+
+// WaitOthersDone blocks the caller until every other thread has ended ("the system is quiescent").
+func WaitOthersDone() {
+	e := cur
+	if e == nil {
+		return
+	}
+	t := e.running
+	WaitUntil(func() bool {
+		for _, u := range e.threads {
+			if u != t && !u.done {
+				return false
+			}
+		}
+		return true
+	})
+}
+
+// Deterministic switches the rest of the execution to the default schedule without recording
+// choice points: used for a probe phase that examines the state reached by the explored part
+// (e.g. "can the pool still serve max simultaneous requests?") - the probe itself is not explored.
+func Deterministic(on bool) {
+	if e := cur; e != nil {
+		e.det = on
 	}
 }
